@@ -513,6 +513,64 @@ let eval_mode () =
            let verdict = oracle false 0 0 prefix ops ~all_blocked outs in
            print_string (String.concat " || " alts); print_string " ## "; print_string verdict; print_char '\n')
     with
+    | Not_found when (let (k, _, _) = Mlutil.split_case line in k = "fault") ->
+        (* fault family: the index of mailbox 1 cannot be rewritten. The models have no I/O errors; the expected
+           observation below is what the unchanged file store does (a rewrite of that index fails with an error
+           and changes nothing; removing its last message / purging it deletes the directory and with it the
+           fault); the verdict judges the clause directly: every operation returns, the bucket neighbour is served *)
+        let (_, ins, outs) = Mlutil.split_case line in
+        (match ins with
+         | [cap; fill; opss] ->
+             let cap = int_of_string cap and fill = int_of_string fill in
+             let ops = parse_ops opss in
+             let st = Hashtbl.create 8 in
+             let get mb = try Hashtbl.find st mb with Not_found -> [] in
+             Hashtbl.replace st 2 [(80, false)]; Hashtbl.replace st 4 [(81, false)];
+             Hashtbl.replace st 1 (List.init fill (fun i -> (90 + i, false)));
+             let fault = ref (fill > 0) in
+             let view l = String.concat "+" (List.map (fun (t, sn) -> Printf.sprintf "%d.%d" t (if sn then 1 else 0)) l) in
+             let tg = function Tag k -> k | Bogus -> -1 in
+             let rec drop l = if cap > 0 && List.length l >= cap then drop (List.tl l) else l in
+             let exec o = match o with
+               | SAdd (mb, tag, _) -> if mb = 1 && !fault then "err" else (Hashtbl.replace st mb (drop (get mb) @ [(tag, false)]); "id")
+               | SList mb -> "L" ^ view (get mb)
+               | SGet (mb, t) -> (match List.assoc_opt (tg t) (get mb) with Some sn -> Printf.sprintf "m%d.%d" (tg t) (if sn then 1 else 0) | None -> "ne")
+               | SLatest mb -> (match List.rev (get mb) with (t, sn) :: _ -> Printf.sprintf "m%d.%d" t (if sn then 1 else 0) | [] -> "ne")
+               | SSeen (mb, t) -> (match List.assoc_opt (tg t) (get mb) with
+                   | None -> "ne" | Some true -> "ok"
+                   | Some false -> if mb = 1 && !fault then "err"
+                       else (Hashtbl.replace st mb (List.map (fun (x, sn) -> if x = tg t then (x, true) else (x, sn)) (get mb)); "ok"))
+               | SRemove (mb, t) -> (match List.assoc_opt (tg t) (get mb) with
+                   | None -> "ne"
+                   | Some _ -> if mb = 1 && !fault && List.length (get mb) > 1 then "err"
+                       else begin
+                         Hashtbl.replace st mb (List.filter (fun (x, _) -> x <> tg t) (get mb));
+                         if mb = 1 && get mb = [] then fault := false; "ok" end)
+               | SPurge mb -> Hashtbl.replace st mb []; if mb = 1 then fault := false; "ok"
+               | SVisit -> "V" ^ String.concat ";" (List.filter_map (fun mb -> if get mb = [] then None else Some (Printf.sprintf "%d=%s" mb (view (get mb)))) [1; 2; 3; 4]) in
+             let exp = List.map exec ops in
+             let fin = String.concat ";" (List.map (fun mb -> Printf.sprintf "%d=%s" mb (view (get mb))) [1; 2; 4]) in
+             let n = List.length ops in
+             let hung i = (match List.nth_opt outs i with Some "hang" -> true | _ -> false) in
+             let on1 = function SAdd (m, _, _) | SGet (m, _) | SLatest m | SList m | SSeen (m, _) | SRemove (m, _) | SPurge m -> m = 1 | SVisit -> true in
+             let on2 = function SAdd (m, _, _) | SGet (m, _) | SLatest m | SList m | SSeen (m, _) | SRemove (m, _) | SPurge m -> m = 2 | SVisit -> false in
+             let finals = match List.nth_opt outs n with Some f -> String.split_on_char ';' f | None -> [] in
+             let h1 = List.exists (fun i -> hung i && on1 (List.nth ops i)) (List.init n (fun i -> i)) || List.mem "1=hang" finals
+                      || outs = ["no-answer"] in
+             let h2 = List.exists (fun i -> hung i && on2 (List.nth ops i)) (List.init n (fun i -> i)) || List.mem "2=hang" finals in
+             let hother = List.exists hung (List.init n (fun i -> i)) || List.mem "4=hang" finals in
+             let verdict =
+               if h1 && h2 then "fail:operation-never-returns-after-io-failure+bucket-neighbour-blocked"
+               else if h1 then "fail:operation-never-returns-after-io-failure"
+               else if h2 then "fail:bucket-neighbour-blocked"
+               else if hother then "fail:operation-never-returns"
+               else if outs = ["crash"] then "fail:process-crashed"
+               else if List.exists2 (fun o r -> (match o with SList _ | SGet _ | SLatest _ | SVisit -> true | _ -> false)
+                                                && String.length r >= 3 && String.sub r 0 3 = "err")
+                         ops (List.filteri (fun i _ -> i < n) (outs @ List.init n (fun _ -> ""))) then "fail:read-failed-after-io-failure"
+               else "ok" in
+             Mlutil.print_model (exp @ [fin]) verdict
+         | _ -> Mlutil.print_model ["MALFORMED"] "ok")
     | Not_found when (let (k, _, _) = Mlutil.split_case line in k = "burst") ->
         (* free-running mini-histories: each round is judged by the linearizability oracle (extracted seq_exec) *)
         let (_, ins, outs) = Mlutil.split_case line in
